@@ -41,6 +41,7 @@ var gvcAPIScenarios = []gvcAPIScenario{
 	{"identifier-metavariable-against-an-absent-label", "@@\nvar x identifier\n@@\n-break x\n+foo(x)\n", "package x\n\nfunc f() {\n\tfor {\n\t\tbreak\n\t}\n}\n", false},
 	{"expression-metavariable-against-an-absent-bound", "@@\nvar s, x expression\n@@\n-s[1:x]\n+f(x)\n", "package x\n\nvar _ = t[1:]\n", false},
 	{"elision-of-a-whole-assignment-side", "@@\n@@\n-x, ... = foo()\n+... = foo()\n", "package x\n\nfunc f() {\n\tx = foo()\n}\n", true},
+	{"elision-where-none-is-supported-on-a-plus-line", "@@\n@@\n-foo(x)\n+if ... { foo(x) }\n", "package x\n\nfunc f() {\n\tfoo(x)\n}\n", true},
 	{"elision-both-sides", "@@\n@@\n func f() {\n   ...\n-  foo()\n+  bar()\n+  baz()\n   ...\n }\n", "package a\n\nfunc f() {\n\ta()\n\tfoo()\n\tb()\n\tc()\n}\n", true},
 }
 
